@@ -85,6 +85,8 @@ def schemata():
         S.append((part, ':- not &tel { a : q(X) }, d(X).', ':- not &tel { a : q(1) }.\n:- not &tel { a : q(2) }.'))
         S.append((part, 's :- not &tel { q(X) : q(3-X), d(X) }.', 's :- not &tel { (q(2) -> q(1)) & (q(1) -> q(2)) }.'))
         S.append((part, ':- not &tel { > q(X) : d(X) }.', ':- not &tel { (> q(1)) & (> q(2)) }.'))
+        S.append((part, ':- not &del { q(X) .>* a : d(X) }.', ':- not &del { q(1) .>* a }.\n:- not &del { q(2) .>* a }.'))
+        S.append((part, 's :- not &del { &true .>? q(X) : q(3-X), d(X) }.', 's :- not &tel { (q(2) -> > q(1)) & (q(1) -> > q(2)) }.'))
         # the same atom as element condition positively and default-negated in one program
         S.append((part, 's :- not not &tel { a : q(X), d(X) }.\nu :- not not &tel { a : d(X), not q(X) }.',
                   's :- not not &tel { (q(1) -> a) & (q(2) -> a) }.\nu :- not not &tel { (~ q(1) -> a) & (~ q(2) -> a) }.'))
